@@ -19,6 +19,7 @@ import unified_planning as up
 import unified_planning.engines as engines
 from unified_planning.engines.mixins.compiler import CompilationKind, CompilerMixin
 from unified_planning.engines.results import CompilerResult
+from unified_planning.engines.compilers.utils import rewritten_problem_kind
 from unified_planning.model import (
     Fluent,
     Problem,
@@ -250,11 +251,16 @@ class NegativeConditionsRemover(engines.engine.Engine, CompilerMixin):
     def resulting_problem_kind(
         problem_kind: ProblemKind, compilation_kind: Optional[CompilationKind] = None
     ) -> ProblemKind:
-        new_kind = problem_kind.clone()
+        new_kind = rewritten_problem_kind(problem_kind)
         if new_kind.has_negative_conditions():
             new_kind.unset_conditions_kind("NEGATIVE_CONDITIONS")
-            if new_kind.has_equalities():
-                new_kind.set_conditions_kind("DISJUNCTIVE_CONDITIONS")
+            # the negations are pushed to the atoms: a negated conjunction or equality becomes a
+            # disjunction, a negated quantifier becomes the dual quantifier
+            new_kind.set_conditions_kind("DISJUNCTIVE_CONDITIONS")
+            if problem_kind.has_universal_conditions():
+                new_kind.set_conditions_kind("EXISTENTIAL_CONDITIONS")
+            if problem_kind.has_existential_conditions():
+                new_kind.set_conditions_kind("UNIVERSAL_CONDITIONS")
         return new_kind
 
     def _compile(
